@@ -49,6 +49,8 @@ def run(ctx):
                    'ready would stall the exec)', floor=1)
     chk.rule('B6', 'no unbounded recursion: every call-graph cycle reachable from the interposers is a listed recursion '
                    'whose argument changes on every call, or is cut by a re-entrancy guard', floor=1)
+    chk.rule('B7', 'stack use does not depend on configuration or input: no alloca, no variable-length array sized by a '
+                   'run-time value, fixed automatic arrays below 64 KiB per frame', floor=20)
     chk.explanation = (
         'Per-call-site discipline over everything reachable from execv/execve (registries expanded): flags of the '
         'socket/send calls are constant-folded; the blocking/signalling deny-list is checked on the resolved call '
@@ -193,3 +195,47 @@ def run(ctx):
     # ---- B6 ------------------------------------------------------------------------
     from rules.recursion import recursion_rule
     recursion_rule(ctx, prog, cg, reach, 'B6')
+    # ---- B7 ------------------------------------------------------------------------
+    stack_rule(ctx, prog, reach, 'B7')
+
+
+def stack_rule(ctx, prog, reach, rule):
+    """stack use of the interposed call does not grow with the configuration or the input: no alloca, no
+    variable-length array sized by a run-time value; fixed frames stay below a generous constant"""
+    import re
+    from engine.dataflow import def_exprs
+    chk = ctx.chk
+    FRAME_LIMIT = 65536
+    nfun = 0
+    for key, (f, _, _) in sorted(reach.items(), key=lambda kv: str(kv[0])):
+        nfun += 1
+        fixed = 0
+        for d in f.local_decls():
+            if d.get('vla'):
+                m = re.search(r'\[(.*)\]\s*$', (d.get('t') or d.get('ct') or '').strip())
+                inner = m.group(1).strip() if m else '?'
+                bound = None
+                if re.fullmatch(r'\w+', inner):
+                    for x in f.local_decls():
+                        if x['name'] == inner:
+                            defs = def_exprs(f, x['id'])
+                            vals = [strip(e).get('v') for e in defs]
+                            if defs and all(v is not None for v in vals):
+                                bound = max(vals)
+                ok = bound is not None and 0 < bound <= FRAME_LIMIT
+                chk.ob(rule, 'vla[%s:%s]' % (f.name, d['name']), ok, f.where(), f.name,
+                       'variable-length array %s[%s] on the stack of the interposed call: its size is a run-time value '
+                       '(a configured limit can be 1 MiB), so a caller with a small thread stack is killed by SIGSEGV '
+                       'before its exec' % (d['name'], inner),
+                       how='length %s only ever holds the constant %s' % (inner, bound))
+            elif 'arrayLen' in d and not d.get('staticStorage'):
+                fixed += d.get('size', 0)
+        for c in f.calls():
+            if c.get('callee') in ('alloca', '__builtin_alloca', '__builtin_alloca_with_align'):
+                chk.ob(rule, 'alloca[%s]' % f.name, False, c.where(), f.name,
+                       '%s allocates on the stack of the interposed call' % render(c)[:60])
+        if fixed > 0:
+            chk.ob(rule, 'frame[%s]' % f.name, fixed <= FRAME_LIMIT, f.where(), f.name,
+                   'automatic arrays of %s total %d bytes (limit %d)' % (f.name, fixed, FRAME_LIMIT),
+                   how='%d bytes of automatic arrays' % fixed, nontrivial=False)
+    chk.count('frames_checked', nfun)
